@@ -152,6 +152,7 @@ iscan_findfirst(iscan_context* ctx, std::string_view start_key, scan_endpoint st
                               && ctx->get_end_point() == scan_endpoint::INCLUSIVE;
 
 retry_from_root: // retry from Masstree root
+    ctx->stack_clear(); // elements pushed for upper layers by an abandoned descent must not survive the retry
     base_node* root = ctx->get_ti()->load_root_ptr();
     if (root == nullptr) {
         // no border to callback is exist, so give up callback
